@@ -8,6 +8,8 @@ MODULES = {
     "C05": "props.c05",
     "C09": "props.c09",
     "C11": "props.c11",
+    "C15": "props.c15",
+    "C16": "props.c16",
 }
 
 if __name__ == "__main__":
